@@ -59,7 +59,8 @@ def make_pair(state, decimals=(6, 18)):
         ctx = Ctx(f"uni({orient})", prices, quote, [_Plain(m)], [(qt, 10000), (bt, 5)], data.index)
         ctx.rng = rng
         ctx.orient = orient
-        ctx.begin_bar(1)
+        ctx.begin_bar(0)
+        ctx.advance()  # now in bar 1 with the previous close known, so the fee path of bar 1 is [close 0, close 1] (it crosses a bound in the just-outside states)
         out.append(ctx)
     return out
 
